@@ -336,3 +336,26 @@ PROPS["C18"] = {
         "handlers that write nothing at all and hijacked connections are out of scope",
     ],
 }
+
+PROPS["C19"] = {
+    "level": "exploration",
+    "runs": [run("TestC19", (6000, 5), (200000, 14)), run("TestC19Conc", (60, 2), (1500, 4)),
+             run("TestC19Conc", (40, 1), (1500, 4), variant="race", tiers=("thorough",))],
+    "rule": "cases = audit engine On|Off|RelevantOnly (configured, optionally switched by ctl:auditEngine) x relevant-status pattern x any "
+            "valid part subset (optionally changed by ctl:auditLogParts +X / -X / absolute) x format JSON|Native|JsonLegacy|OCSF x 1..5 rules "
+            "with every combination of log / nolog / auditlog / noauditlog, single- and multi-valued, conditional or not, optional deny with "
+            "a status, x engine On|DetectionOnly x response status x hostile bytes (newlines, quotes, invalid UTF-8, text shaped like a "
+            "section boundary) in headers, body and messages; a capturing writer registered through the plugin API records every audit "
+            "record; oracle = record count per the decision table (status source: real or would-be interruption, else response), record "
+            "carries the transaction id and exactly the configured parts, lists exactly the fired audit-enabled rules, is well-formed (one "
+            "parsable JSON line / native sections A..Z with one boundary id), error callback once per fired log-enabled rule; the "
+            "concurrent run has 2..8 goroutines log through one serial or concurrent writer and parses the shared file back; "
+            "non-trivial = RelevantOnly or a ctl switch or hostile bytes logged or log/audit flags that differ",
+    "essential": {"all": ["audit:On", "audit:Off", "audit:RelevantOnly", "records:0", "records:1", "format:JSON", "format:Native", "format:OCSF", "format:JsonLegacy",
+                          "ctl-auditEngine", "ctl-auditLogParts:+", "ctl-auditLogParts:-", "interrupted", "would-be-interruption-status", "log-and-audit-flags-differ",
+                          "hostile-bytes-logged", "multi-value-rule", "concurrent:Serial/JSON", "concurrent:Serial/Native", "concurrent:Concurrent/JSON"]},
+    "assumptions": COMMON_ASSUME + [
+        "ProcessLogging is called exactly once per transaction (precondition of the statement); RelevantOnly is always configured with a pattern",
+        "native records are delimited by their own random boundary id: logged data that merely looks like a boundary is content",
+    ],
+}
